@@ -268,6 +268,12 @@ def real_window(chk, facts, C):
         for bd, label in pick_forms(op_forms(facts, trait, SOP), chk.tier):
             for lens in shapes:
                 window_op(chk, "C14.R", facts, C, bd, label, lens, "or", opname, WN=2, irredundant=True, sample=(lens in ((2, 1), (2,))))
+            if opname in ("or", "and"):
+                # large operands: 20 fixed cubes (minterms 0..19 of five variables: part of the space stays uncovered)
+                # next to one symbolic cube, on either side
+                big = [(m_, ~m_ & 31) for m_ in range(20)]
+                window_op(chk, "C14.R", facts, C, bd, label, (0, 1), "or", opname, WN=5, irredundant=True, fixed=[big, []])
+                window_op(chk, "C14.R", facts, C, bd, label, (1, 0), "or", opname, WN=5, irredundant=True, fixed=[[], big])
 
 
 def complement_rule(chk, facts, C, cm):
